@@ -38,7 +38,7 @@ Definition mk_mapspec (i o : list aspec) : result mapspec :=
   match o with
   | [] => Err IndexError
   | o0 :: rest =>
-      if existsb is_none (axes o0) then Err ValueError
+      if existsb (fun x => existsb is_none (axes x)) o then Err ValueError
       else if negb (forallb (fun x => list_eqb str_eqb (indices x) (indices o0)) rest) then Err ValueError
       else if negb (forallb (fun ix => mem_str ix (indices o0)) (flat_map indices i)) then Err ValueError
       else Ok {| ins := i; outs := o |}
